@@ -115,6 +115,13 @@ def jobs(tier, seed):
         if kind == 'WFQ':
             cfg['float_inexact'] = True
         js.append({'harness': 'wc', 'cfg': cfg, 'weight': 60, 'opts': {'max_paths': 20000}})
+    # arrivals in the very instant a transmission ends, after the delivery (late wake-up)
+    for kind in KINDS:
+        cfg = {'kind': kind, 'rate': 8, 'table': TABLES[kind], 'flows': [0, 1, 0, 1], 'sorts': 'int', 'split_gap': [1, 3],
+               'smax': 3 if kind != 'DRR' else 1600}
+        if kind == 'WFQ':
+            cfg['float_inexact'] = True
+        js.append({'harness': 'wc', 'cfg': cfg, 'weight': 40, 'opts': {'max_paths': 8000}})
     # a scheduler without anything attached to its output
     for kind in KINDS:
         cfg = {'kind': kind, 'rate': 8, 'table': TABLES[kind], 'flows': [0, 1, 0], 'sorts': 'int', 'no_out': True, 'smax': 3}
